@@ -12,9 +12,15 @@ CHECKS = {
  "C02": dict(level=MC, technique="TLA+ model (Persist.tla: Engine + transient registers + Restart action) checked by TLC; TLC-generated histories with restart points replayed as live/restored twins; twin comparisons validated by TLC (PersistTrace.tla)",
    text="Persist.tla adds the registers goflow keeps outside the persisted envelope and an independently enabled Restart action; TLC checks that every register is determined by persisted state wherever the engine reads it. The exported histories (every subset of waits as restart points) run on the real engine as twins - session object kept alive vs marshalled and re-read - with identical clock/UUID/random sources; events, segments and session JSON are compared per call and Marshal(Read(Marshal(s))) is checked; generated flows render the entire context, open tickets and call webhooks at every node. Runner fixtures are re-run under restart subsets the suite never uses.",
    note="Trusted: byte comparison in Go; services are mocks; flows mentioning webhook/legacy_extra compared on structure only (allowed exceptions).", ref="4 C02"),
+ "C03": dict(level=MC, technique="TLA+ model of contact modifiers (Contact.tla) checked by TLC; all (contact, modifier) cases replayed on modifiers.Apply and through the corresponding flow actions; recorded before/events/after validated by TLC with an independent ApplyEvents (ContactTrace.tla)",
+   text="Contact.tla models every modifier, group re-evaluation and the events they emit; TLC checks Announced / ModifiedIff / SecondNoop on the model and enumerates the whole (contact x modifier) domain. Each case is applied twice to a real flows.Contact and also executed as a flow (action before and after a wait, manual and msg trigger); TLC folds the recorded events over the recorded before-contact with its own ApplyEvents and compares with the after-contact, for these and for every sprint of the runner fixtures (incl. off-script resumes).",
+   note="Trusted: JSON projection of contacts/events (harness/contact.go). Symbolic domains around MaxFieldChars=4; location-typed fields only via fixtures.", ref="4 C03"),
  "C05": dict(level=MC, technique="TLA+ model (Engine.tla: StepBound, ResumeBound, LimitFails, liveness Terminates under WF) + replay with watchdog + trace validation (EngineTrace.tla)",
    text="TLC proves within bounds that every sprint of the specification terminates (liveness, no state constraint), visits at most MaxSteps nodes and that at most MaxResumes resumes are accepted, for several option values; the exported behaviours are replayed on a real engine built with the same option values and the bounds are evaluated by TLC on every recorded call, together with fixtures run under small random limits.",
    note="Trusted: harness projection and watchdog; option values 1..5 / 0..3; text-length limits are covered by the Limits part of the check.", ref="4 C05"),
+ "C06": dict(level=MC, technique="TLA+ model (Contact.tla Reeval/Qualifies, Membership invariant) + replay of all (contact, modifier) cases directly and as sessions + trace validation (ContactTrace.tla MembershipOK/Deactivated/ChangesReported)",
+   text="TLC checks on the model that after every effective modifier membership of every query group equals (active and query matches) and non-active contacts hold no static group; on recorded data TLC checks the same equivalence for every query-based group of the assets after every direct modifier application and every engine call (start with manual and msg triggers, resume), using the real evaluator's verdict on the bare query as a logged fact, plus that group changes are all announced. Starting contacts include stored memberships that are already wrong.",
+   note="Trusted: contactql.EvaluateQuery for the bare query (cross-checked by C15); query groups over name, field, tel URN, language, tickets, last_seen_on.", ref="4 C06"),
  "C10": dict(level=MC, technique="TLA+ model (Engine.tla resume decision list + AssetFault actions) + replay incl. asset faults + trace validation (EngineTrace.tla)",
    text="The resume decision list (reject 101/102/103 before anything is touched; fail the session for missing flow, resume limit, vanished node, node without wait) is model checked with asset faults as independently enabled actions; behaviours including faults are replayed (assets rebuilt, session re-read) and TLC checks on every recorded call that a rejected resume left the session JSON byte-identical with no events and that impossible resumes end the session failed with a failure event.",
    note="Trusted: harness projection; byte comparison of json.Marshal(session) done in Go and logged as a boolean; fault kinds flow_gone/node_gone/wait_gone.", ref="4 C10"),
